@@ -12,6 +12,9 @@
      hidden flt A B p   p lies below a removed root: a directory of A that is absent from B or
                      (after the filter) a non-directory in B
      links_ok B      a hard-link entry names an earlier regular entry of B with the same bytes
+                     (nothing is assumed about the METADATA a hard-link entry carries: the writer
+                     gives a new name the metadata of the inode it joins, AbsDest.link_stat —
+                     hard_link_joins_inode below)
      identity_faithful d A B   entries with the same path and the same identity key hold the
                      same bytes (regular files / hard links)
      unchanged d A B p   p is listed on both sides with the same identity key
@@ -94,7 +97,7 @@ Theorem untouched_keep_inode : forall (H : bytes -> bytes) (hdr : stat -> bytes)
     alookup p (ds_map r) = alookup p (dest_of A) /\ ~ In p (ds_reqs r).
 Proof.
   intros H hdr d A B HwA HwB Hl Hf. cbv zeta.
-  destruct (receive_fresh_proof H hdr d A B HwA HwB Hl Hf) as (He & Hc & _ & Hk & _).
+  destruct (receive_fresh_weak H hdr d A B HwA HwB Hl Hf) as (He & Hc & _ & Hk & _).
   split; auto. split; auto. intros p Hu. split; auto.
   rewrite (reqs_exact_proof H hdr d A B HwA HwB Hl Hf).
   apply reqs_spec_unchanged; [apply HwA|apply HwB|exact Hu].
@@ -113,8 +116,22 @@ Theorem rewritten_get_new_inode : forall (H : bytes -> bytes) (hdr : stat -> byt
                 de_stat e = b /\ N.of_nat (length A) <= de_ino e.
 Proof.
   intros H hdr d A B HwA HwB Hl Hf. cbv zeta. split; [apply dest_of_ino_bound|].
-  destruct (receive_fresh_proof H hdr d A B HwA HwB Hl Hf) as (_ & _ & _ & _ & Hfr). exact Hfr.
+  destruct (receive_fresh_weak H hdr d A B HwA HwB Hl Hf) as (_ & _ & _ & _ & Hfr). exact Hfr.
 Qed.
+
+(* A hard-link entry of the source that is new, or whose identity key differs from what the old
+   destination listed at its path, ends up as ONE MORE NAME of the inode the destination shows at
+   the path it names: same inode class, same bytes, and the metadata of THAT inode (mode, uid,
+   gid, size, mtime, device numbers, xattrs: AbsDest.link_stat) under the announced path — not
+   the metadata that was announced, should it differ (os.Link; nothing is written to the inode). *)
+Theorem hard_link_joins_inode : forall (H : bytes -> bytes) (hdr : stat -> bytes) d A B,
+  wf_listing (map fst A) -> wf_listing (map fst B) -> links_ok B -> identity_faithful d A B ->
+  let r := receive_abs H hdr Fresh d A B in
+  forall p, link_changed d A B p ->
+    exists b e t, In b (map fst B) /\ st_path b = p /\ alookup p (ds_map r) = Some e /\
+      alookup (st_linkname b) (ds_map r) = Some t /\ de_ino e = de_ino t /\ de_bytes e = de_bytes t /\
+      de_stat e = link_stat (de_stat t) b.
+Proof. exact hard_link_joins_inode_proof. Qed.
 
 (* Re-sync of an unchanged source (entry by entry the same path and identity key): zero
    content requests, zero notifications, the destination map untouched. No other hypothesis. *)
@@ -158,6 +175,7 @@ Print Assumptions diff_none_all.
 Print Assumptions reqs_exact.
 Print Assumptions untouched_keep_inode.
 Print Assumptions rewritten_get_new_inode.
+Print Assumptions hard_link_joins_inode.
 Print Assumptions receive_resync_noop.
 Print Assumptions diff_none_requests_all.
 
@@ -242,3 +260,19 @@ Example example_transfer :
   /\ option_map de_ino (alookup pc (dest_of exA)) = Some 7       (* c: old class 7, new class 9 *)
   /\ option_map de_ino (alookup pc (ds_map r)) = Some 9.
 Proof. vm_compute. repeat split; reflexivity. Qed.
+
+(* a hard link announced with other metadata than the file it names (mode 0600, uid 7, mtime 9
+   instead of 0644, 0, 2): the new name d shows the metadata of the inode of c — the one c got in
+   this transfer — under its own path and link name; only the notification says otherwise *)
+Definition exBd : list entry :=
+  [ (file pa 2, [9;9;9]); (file p_a_b 1, [3;3;3]); (file pc 2, [6;6;6]);
+    (mk [100] 384 7 0 3 9 pc 0 0, [6;6;6]) ].
+Example dishonest_link_shows_inode_metadata :
+  let r := receive_abs (fun x : list N => x) (fun _ => []) Fresh DMetadata exA exBd in
+  links_ok exBd /\ ds_err r = false
+  /\ option_map de_stat (alookup [100] (ds_map r)) = Some (mk [100] 420 0 0 3 2 pc 0 0)
+  /\ option_map de_ino (alookup [100] (ds_map r)) = option_map de_ino (alookup pc (ds_map r))
+  /\ map (fun n => snd (fst n)) (ds_notifs r) = [pa; pb; pc; [100]]
+  /\ nth_error (ds_notifs r) 3 = Some (KAdd, [100], Some (mk [100] 384 7 0 3 9 pc 0 0, []))
+  /\ ds_reqs r = [pa; pc].
+Proof. cbv zeta. split; [apply links_ok_b_sound; vm_compute; reflexivity|]. vm_compute. repeat split; reflexivity. Qed.
